@@ -337,6 +337,42 @@ func TestGrid(t *testing.T) {
 	ev.Exhaustive("the (n,q,c) grid described in the rule, n=1..30 complete with all greedy cumulative levels")
 }
 
+// TestNearTies: q at and within 1e-12..1e-4 (relative) of the values at which two buckets of
+// Binomial(n,q) have equal mass - where the accumulation order and the Ambiguous flag are
+// decided by a comparison of nearly equal floats - with every cumulative level as confidence.
+func TestNearTies(t *testing.T) {
+	ev.Rule(rule)
+	ev.Rapid(t, "c11-nearties", 1500, 40000, func(rt *rapid.T) {
+		n := rapid.IntRange(2, 30).Draw(rt, "n")
+		j := rapid.IntRange(0, n-1).Draw(rt, "j")
+		k := rapid.IntRange(j+1, n).Draw(rt, "k")
+		// PMF(j) = PMF(k)  <=>  (q/(1-q))^(k-j) = C(n,j)/C(n,k)
+		lr := (lchoose(n, j) - lchoose(n, k)) / float64(k-j)
+		r := math.Exp(lr)
+		q := r / (1 + r)
+		switch rapid.IntRange(0, 3).Draw(rt, "off") {
+		case 1:
+			q *= 1 + gen.Sign(rt, "offSign")*gen.LogUniform(rt, 1e-12, 1e-4, "offBy")
+		case 2:
+			q = math.Nextafter(q, rapid.SampledFrom([]float64{0, 1}).Draw(rt, "ulpDir"))
+		case 3:
+			q = math.Round(q*1e7) / 1e7 // the tie value to seven digits
+		}
+		if !(q > 0 && q < 1) {
+			q = 0.5
+		}
+		c := &Case{N: n, Q: q, Cs: greedyLevels(n, q)}
+		checkCI.Run(rt, c)
+	})
+}
+
+func lchoose(n, k int) float64 {
+	a, _ := math.Lgamma(float64(n + 1))
+	b, _ := math.Lgamma(float64(k + 1))
+	c, _ := math.Lgamma(float64(n - k + 1))
+	return a - b - c
+}
+
 func TestRandom(t *testing.T) {
 	ev.Rule(rule)
 	ev.Rapid(t, "c11-random", 10000, 320000, func(rt *rapid.T) {
